@@ -28,11 +28,11 @@ from ..model import bindlist as M
 ID = 'C07'
 LEVEL = 'exploration'
 RULE = ('case = 1..4 pfile.py-written code files (family pool of 1..5 out of the 99 families of the manual table whose CODE granularity is known, '
-        'segments 1..9, short and $81 headers, entry records, record lengths from {0, 1 unit, 255..257, 8191..8193 (PBIND copy buffer), 16384, '
+        'segments 0..10, record granularity 1/2/4 independent of the family default (1/2/4), short and $81 headers, entry records, record lengths from {0, 1 unit, 255..257, 8191..8193 (PBIND copy buffer), 16384, '
         '65534, 65535} or random < 3000, start addresses over the whole 32-bit range) bound by PBIND without / with a -f list (1..9 headers in '
         '$hex, 0xhex, hexh or decimal spelling, possibly naming absent families), then listed by PLIST (output file and one input); '
         'non-trivial = at least one data record in the inputs; distinct = distinct (file count, filter class, set of '
-        '(header kind, CODE/other segment, granularity) and set of length classes over all input records, entry records present)')
+        '(header kind, CODE/other segment, granularity, granularity = family default?) and set of length classes over all input records, entry records present)')
 ASSUMPTIONS = ['vf/pfile.py reads and writes the code file format as defined in doc/file-formats.md',
                'granularity of segment CODE per processor family = the Gran byte asl itself writes for that family (recorded from the 201 golden programs; vf/model/bindlist.py CODE_GRAN)',
                'PLIST family names are compared with the manual table of header bytes by a spelling-tolerant relation (containment / x wildcards), not verbatim',
@@ -40,12 +40,12 @@ ASSUMPTIONS = ['vf/pfile.py reads and writes the code file format as defined in 
 MANIFEST = dict(
     category='exploration', design_ref='DESIGN.md §4 C07',
     technique='conservation-law monitor over PBIND executions (records of the inputs vs records of the output, independent strict reader) + reference-model monitor for every PLIST row and total',
-    text='Held on the executions of this run: for generated sequences of 1..4 well-formed code files (mixed families, segments 1..9, granularities 1/2/4, short and long headers, '
+    text='Held on the executions of this run: for generated sequences of 1..4 well-formed code files (mixed families, segments 0..10, record granularities 1/2/4 independent of the family default, short and long headers, '
          'entry records, record lengths 0..65535 incl. the 8 KiB copy-buffer boundary) PBIND exited 0 and wrote a well-formed file holding exactly the selected records, in order, '
          'with unchanged family, segment, granularity, start and payload; PLIST printed one row per record with the true family, segment, start, byte length and last address and '
          'per-segment totals equal to the sums of the record lengths.',
     note='Entry records under -f are accepted both copied and dropped (the manual does not say whether header $80 is subject to the list). Not generated because the manual is silent: '
-         'empty creator strings, segment 0 and 10, families outside the manual table, negated or repeated -f, wildcards, PLIST with several files or options, relocatable records ($82..$85).')
+         'empty creator strings, families outside the manual table, negated or repeated -f, wildcards, PLIST with several files or options, relocatable records ($82..$85).')
 REGISTERED = True
 
 QUICK_N, THOROUGH_N = 2000, 15000
@@ -79,15 +79,22 @@ def len_class(n):
 def gen_record(rng, pool, big_left):
     fam = rng.choice(pool)
     cg = M.CODE_GRAN[fam]
-    if rng.random() < 0.6:
-        seg, gran = 1, cg
-        short = rng.random() < 0.5
+    # Gran is an explicit field of the $81 record (doc/file-formats.md) and the property demands that PBIND keeps it
+    # and that PLIST computes the last address from it, whatever the family's usual unit is ("mixed ... granularities"):
+    # every combination (family default 1/2/4) x (record granularity 1/2/4) x (segment 0..10) is generated.  asl itself
+    # only writes the family's own granularity, so such files come from other producers - well-formed all the same.
+    if rng.random() < 0.55:
+        seg = 1
     else:
-        seg = rng.randrange(2, 10)
-        # doc/file-formats.md: Gran "is a function of processor type and segment"; the function is not
-        # tabulated, so only the two plausible values are generated: bytes, or the family's CODE unit.
-        gran = rng.choice([1, cg])
-        short = False
+        # segments 0..10: 0..9 from the table of doc/file-formats.md, 10 = EEDATA (doc/assembler-usage.md segment
+        # numbers, doc/pseudo-instructions.md SEGMENT; asl writes it for AVR and PIC16C8x)
+        seg = rng.choice([0, 2, 3, 4, 5, 6, 7, 8, 9, 10, 10])
+    if rng.random() < 0.5:
+        gran = cg
+    else:
+        gran = rng.choice([1, 2, 4])
+    # the short header implies segment CODE and the family's granularity: only such records can be written with it
+    short = seg == 1 and gran == cg and rng.random() < 0.5
     r = rng.random()
     if big_left[0] > 0 and r < 0.08:
         n = rng.choice(LEN_BIG)
@@ -113,6 +120,8 @@ def gen_record(rng, pool, big_left):
         payload = rng.randbytes(n)
     return pfile.data(fam, start, payload, seg=seg, gran=gran, short=short)
 
+
+WORD_FAMILIES = [f for f in M.FAMILIES if M.CODE_GRAN[f] != 1]
 
 CREATORS = [b'AS 1.42/x86_64-Linux', b'BIND/C 1.42', b'x', b'AS 1.41r8/i386-unknown-msdos', b'some other tool (c) 1999']
 
@@ -277,8 +286,8 @@ def check_list(ctx, out, name, buf, arg, what):
             out.violate('plist:family-column', '%s: header byte $%02x is family %r in the manual' % (where, rec.cpu, M.MANUAL_FAMILIES[rec.cpu]))
         elif names.setdefault(d['family'], rec.cpu) != rec.cpu:
             out.violate('plist:family-column', '%s: the same name is printed for header bytes $%02x and $%02x' % (where, names[d['family']], rec.cpu))
-        if d['segment'].upper() not in M.SEGMENTS[rec.seg]:
-            out.violate('plist:segment-column', '%s: record is in segment %d (%s)' % (where, rec.seg, '/'.join(M.SEGMENTS[rec.seg])))
+        if not M.segment_name_ok(rec.seg, d['segment']):
+            out.violate('plist:segment-column', '%s: record is in segment %d (%s)' % (where, rec.seg, '/'.join(M.SEGMENTS[rec.seg]) or '<undefined>'))
         if d['start'] != rec.start:
             out.violate('plist:start-column', '%s: record starts at %08X' % (where, rec.start))
         if d['length'] != len(rec.data):
@@ -297,14 +306,11 @@ def check_list(ctx, out, name, buf, arg, what):
     # totals
     printed = {}
     for num, seg in lst.totals:
-        segs = [k for k, v in M.SEGMENTS.items() if seg.upper() in v]
-        if not segs:
-            continue
-        printed[segs[0]] = num
+        printed.setdefault(M.segment_of_name(seg), num)
     for seg in sorted(set(sums) | set(printed)):
         want = sums.get(seg, 0)
         num = printed.get(seg)
-        sname = M.SEGMENTS[seg][0]
+        sname = M.SEGMENTS[seg][0] if M.SEGMENTS[seg] else '<undefined> (0)'
         if num is None:
             if want:
                 out.violate('plist:total-missing', '%s: no summary line for the %d bytes of segment %s; summary: %r' % (tag, want, sname, lst.totals))
@@ -322,6 +328,10 @@ def run_case(case, ctx):
     rng = ctx.rng
     nfiles = rng.choice([1, 1, 2, 2, 3, 4])
     pool = rng.sample(M.FAMILIES, rng.choice([1, 2, 2, 3, 4, 5]))
+    if rng.random() < 0.6:
+        # three quarters of the families are byte-addressed: make sure word-addressed ones take part
+        pool[rng.randrange(len(pool))] = rng.choice(WORD_FAMILIES)
+        pool = sorted(set(pool))
     big_left = [2]
     files = []
     for i in range(nfiles):
@@ -383,7 +393,7 @@ def run_case(case, ctx):
         argv = srcs + [target] + opts
     tag = 'pbind ' + ' '.join(argv)
     all_recs = [r for recs in inputs for r in recs]
-    kinds = sorted({('short' if r.short else 'long', 'code' if r.seg == 1 else 'other', r.gran) for r in all_recs if r.kind == 'data'})
+    kinds = sorted({('short' if r.short else 'long', 'code' if r.seg == 1 else 'other', r.gran, r.gran == M.CODE_GRAN[r.cpu]) for r in all_recs if r.kind == 'data'})
     lens = sorted({len_class(len(r.data)) for r in all_recs if r.kind == 'data'})
     has_entry = any(r.kind == 'entry' for r in all_recs)
     out.sample = {'cmd': argv, 'files': [[repr(r) for r in recs[:6]] for recs in inputs][:3]}
@@ -395,6 +405,7 @@ def run_case(case, ctx):
             out.sets['input_header_kinds'].add('short' if r.short else 'long')
             out.sets['segments'].add(r.seg)
             out.sets['granularities'].add(r.gran)
+            out.sets['family_gran/record_gran/segment'].add('%d/%d/%d' % (M.CODE_GRAN[r.cpu], r.gran, r.seg))
             out.sets['length_classes'].add(len_class(len(r.data)))
             out.sets['families'].add('%02x' % r.cpu)
         elif r.kind == 'entry':
